@@ -201,6 +201,92 @@ class _dill_identity:
         return False
 
 
+def make_history_run(nworkers):
+    """Several successive maps over ONE ParallelMap whose workers stay alive in between (the real
+    worker_run loops, here in threads fed by thread-safe FIFO queues): every task of every call
+    receives exactly the keywords a serial run gives it -- equilibrium, psi, f_R, f_Z and the
+    keywords of ITS OWN call; nothing a worker saw in an earlier call reaches a later one (the mesh
+    maps followPerpendicular with atol/rtol/psivals/... and then PsiContour.refine, which accepts
+    atol and swallows unknown keywords)."""
+
+    def run(ctx):
+        import queue
+        import threading
+
+        from hypnotoad.utils import parallel_map as PM
+
+        class Stop(BaseException):
+            pass
+
+        class Q(queue.Queue):
+            def get(self, *a, **k):
+                return queue.Queue.get(self, timeout=60)
+
+        seen = {}
+
+        def mk(call):
+            def function(a, **kw):
+                seen.setdefault(call, []).append((a, tuple(sorted((k, repr(v)) for k, v in kw.items()))))
+                return (call, a)
+
+            return function
+
+        history = [("follow", dict(atol=1e-11, rtol=1e-12, psivals=[1.0, 2.0], maxits=7, recover=True)), ("refine", dict(width=0.3)), ("refine", dict()), ("follow", dict(atol=2e-9))]
+        eq = types.SimpleNamespace(psi="PSI", f_R="FR", f_Z="FZ")
+
+        def play(parallel):
+            seen.clear()
+            pm = object.__new__(PM.ParallelMap)
+            out, threads = [], []
+            if parallel:
+                pm.task_queue, pm.result_queue = Q(), Q()
+
+                def target():
+                    try:
+                        with _dill_identity(PM, eq):
+                            PM.ParallelMap.worker_run(pm.task_queue, pm.result_queue, eq)
+                    except (Stop, queue.Empty):
+                        pass
+
+                threads = [threading.Thread(target=target, daemon=True) for _ in range(nworkers)]
+                pm.workers = [types.SimpleNamespace(terminate=lambda: None, join=lambda: None) for _ in threads]
+                for t in threads:
+                    t.start()
+            else:
+                pm.workers = None
+                pm.equilibrium, pm.psi, pm.f_R, pm.f_Z = eq, eq.psi, eq.f_R, eq.f_Z
+            err = None
+            try:
+                for k, (name, kw) in enumerate(history):
+                    out.append(PM.ParallelMap.__call__(pm, mk(k), [("t%d" % j,) for j in range(3)], **kw))
+            except BaseException as e:  # noqa
+                err = e
+            if parallel:
+
+                def stop(*a, **k):
+                    raise Stop()
+
+                for _ in threads:
+                    pm.task_queue.put((0, stop, (), {}))
+                for t in threads:
+                    t.join(20)
+            return out, err, {k: sorted(v) for k, v in seen.items()}
+
+        s_out, s_err, s_seen = play(False)
+        p_out, p_err, p_seen = play(True)
+        with spec_mode():
+            ctx.oblige(TRUE(s_err is None and p_err is None), "all calls of the history return (serial and with live workers)")
+            ctx.oblige(TRUE(p_out == s_out), "same results, call by call")
+            base = {"equilibrium": repr(eq), "psi": repr("PSI"), "f_R": repr("FR"), "f_Z": repr("FZ")}
+            for k, (name, kw) in enumerate(history):
+                want = tuple(sorted(dict(base, **{a: repr(b) for a, b in kw.items()}).items()))
+                ctx.oblige(TRUE(len(p_seen.get(k, [])) == 3 and all(r[1] == want for r in p_seen.get(k, []))), "call %d (%s): every task receives equilibrium, psi, f_R, f_Z and the keywords of its own call ONLY" % (k, name))
+                ctx.oblige(TRUE(p_seen.get(k) == s_seen.get(k)), "call %d (%s): workers and serial execution pass identical keywords" % (k, name))
+            ctx.oblige(TRUE(p_seen.get(1) == s_seen.get(0)), "twin: call 1 sees the keywords of call 0", kind="must-fail")
+
+    return run
+
+
 def make_serial_run(n, failing=None):
     def run(ctx):
         from hypnotoad.utils import parallel_map as PM
@@ -273,6 +359,8 @@ def build(S):
         S.contract("__call__[serial,n=%d,failing=%s]" % (n, sorted(failing)), FN_CALL, make_serial_run(n, failing), shape="n=%d" % n)
     for n, failing in ((2, {1}), (3, {0})):
         S.contract("__call__[parallel,n=%d,failing=%s,unrebuildable exception]" % (n, sorted(failing)), FN_WORK, make_call_run(n, 2, failing, exc_type=MultiArgError), shape="n=%d" % n, max_paths=100000)
+    for nw in (1, 2, 3):
+        S.contract("history[4 successive maps, %d live worker(s)]" % nw, FN_WORK, make_history_run(nw), shape="4 calls x 3 tasks, FIFO queues, workers alive across calls")
     S.contract("call-sites[frame]", "hypnotoad.core.mesh:MeshRegion", run_frame, shape="-")
 
 
